@@ -122,7 +122,23 @@ func (se *SessEstablishedStage) handleMsgIn(msg msgs.Message) (err error) {
 		// nothing to do
 
 	default:
-		se.state.ExchangeMsgIn <- msg
+		// Hand the message up, but keep serving outgoing messages meanwhile. Otherwise this stage, waiting for space
+		// in ExchangeMsgIn, and the upper layer, waiting for space in ExchangeMsgOut to acknowledge a segment, would
+		// block each other for good once both channels are filled, e.g., by a burst of pipelined segments.
+		for {
+			select {
+			case se.state.ExchangeMsgIn <- msg:
+				return
+
+			case out := <-se.state.ExchangeMsgOut:
+				if err = se.messageOut(out); err != nil {
+					return
+				}
+
+			case <-se.closeChan:
+				return
+			}
+		}
 	}
 	return
 }
